@@ -8,7 +8,6 @@ use crate::output::{Digits, NumberParts};
 use crate::runtime::Show;
 use crate::types::{BigInt, BigRat, Numeric};
 use serde_derive::{Deserialize, Serialize};
-use std::convert::TryFrom;
 use std::fmt;
 use std::ops::{Add, Div, Mul, Neg, Sub};
 
@@ -19,6 +18,9 @@ pub struct Number {
     pub value: Numeric,
     pub unit: Dimensionality,
 }
+
+/// Units with a larger exponent than this are shown without an SI prefix.
+const MAX_PREFIXED_EXPONENT: u64 = 1000;
 
 impl Number {
     pub fn one() -> Number {
@@ -322,10 +324,12 @@ impl Number {
     /// units, and possibly apply SI prefixes.
     pub fn prettify(&self, context: &Context) -> Number {
         let unit = self.pretty_unit(context);
-        // SI prefixes are raised to the unit's exponent, which takes an i32
+        // SI prefixes are raised to the unit's exponent: that is only
+        // worth doing, and only affordable, for ordinary exponents
+        // (10^24 to the power of 2^31 has billions of digits).
         let single = unit
             .as_single()
-            .filter(|orig| i32::try_from(orig.1).is_ok());
+            .filter(|orig| orig.1.unsigned_abs() <= MAX_PREFIXED_EXPONENT);
         if let Some(orig) = single {
             use std::collections::HashSet;
             let prefixes = [
